@@ -329,6 +329,16 @@ def h_gate_alias(env):
     env.check_true(CU.gates_same([CU.gate_tuple(g)], [gt]) is None, "Gate: modifying the lists passed as target / control afterwards leaves the gate unchanged")
     CU.check_unchanged(env, before, c, "Circuit: modifying the lists its gates were built from leaves the circuit unchanged")
     check_invariant(env, c, "after the caller modified its own lists", width=5)
+    # a gate object that was valid when built and made invalid afterwards by attribute assignment is re-validated by every route
+    # that takes gates into a circuit
+    for what, mk in (("target == control", lambda g_: setattr(g_, "target", [0])), ("negative index", lambda g_: setattr(g_, "target", [-1])),
+                     ("two targets on CNOT", lambda g_: setattr(g_, "target", [1, 2])), ("non-integer index", lambda g_: setattr(g_, "control", [0.5]))):
+        bad_gate = Gate("CNOT", 1, 0)
+        mk(bad_gate)
+        env.check_raises(lambda: Circuit([bad_gate]), f"Circuit([gate made invalid afterwards: {what}]) is rejected")
+        ok_c = Circuit([Gate("H", 2)], n_qubits=4)
+        env.check_raises(lambda: ok_c.add_gate(bad_gate), f"add_gate(gate made invalid afterwards: {what}) is rejected")
+        check_invariant(env, ok_c, "after the rejected add_gate", width=4)
     d = c + Circuit([Gate("X", [0])])
     e = c.inverse()
     f = c * 2
